@@ -9,7 +9,8 @@
    searches stand behind it -- `m.data = v` (which goes through match.parent.data[match.data_name] and mutates
    by object identity) replaces exactly the node at the explicit path of m: the forwarding of parent and
    data_name is part of the theorem (proofs/AssignPosition.v: parent_chain).
-   (The positional form of del / pop is not stated; the frame theorems above and the correspondence cover them.) *)
+   C14_delete_removes_at_position: `del m.data` (and m.pop(), which is the same deletion) removes exactly the member
+   named by m.data_name from the container at the position of m's parent, by dict / list deletion (`remove`). *)
 From Coq Require Import List ZArith String Bool PArith.
 From TP Require Import Json PyPrim Machine Api Spec SpecHas Mutate SpecSet Obs Dsl Run.
 From TP.proofs Require Import RefineBase SpecLemmas BelowLemmas MutateProofs RoundTrip AssignPosition.
@@ -43,3 +44,14 @@ Theorem C14_assign_writes_at_position :
     match_assign doc m x = (Ok tt, put_at doc (explicit_path m) x).
 Proof. exact match_assign_delivered. Qed.
 Print Assumptions C14_assign_writes_at_position.
+
+Theorem C14_delete_removes_at_position :
+  forall doc (sev : hp -> jctx -> res json * list sevent) (p : list (vertex hp)) (m pm : @tm json),
+    uniq doc -> NoDup (labels doc) -> no_parent p -> wf m ->
+    In (abs m) (deval hp sev p (root_ctx doc)) -> parent m = Some pm ->
+    exists y', lookup doc (steps_of (abs pm)) = Some (tdata pm) /\
+               explicit_path m = steps_of (abs pm) ++ [vstep (data_name m)] /\
+               remove (vstep (data_name m)) (tdata pm) = Some y' /\
+               match_del doc m = (Ok tt, put_at doc (steps_of (abs pm)) y').
+Proof. exact match_del_delivered. Qed.
+Print Assumptions C14_delete_removes_at_position.
